@@ -187,7 +187,9 @@ def evaluate(obs):
             continue
         d = dones[0]
         njobs = exp[0]['jobs'] if exp else 0
-        before = [e for e in jc if e['n'] < d['n']]
+        # (a worker's 'accounted' event is logged after the monitor call returned, so under load it can trail another worker's done
+        # notification: the count uses the events logged on ENTRY to the call; the exact count is the jobs_left rule below)
+        before = [e for e in evs if e['kind'] == 'pp.job_complete.begin' and e['n'] < d['n']]
         if len(before) != njobs:
             viol.append(V(f'{x.label}: notified done after {len(before)} of {njobs} jobs had been accounted for by workers', sym='done-before-jobs',
                           **mech))
